@@ -20,7 +20,10 @@ for d in "$HERE"/seeded/*/; do
   out=$(VERIF_REPO="$W/repo" VERIF_OUT="$W/home" VERIF_SELFTEST_K=${SEEDED_K:-4} "$HERE/tools/check.sh" "$id" ${SEEDED_TIER:-quick} 2>&1); code=$?
   t1=$(date +%s.%N)
   inv=$(echo "$out" | grep -o 'invariant=[^ ]*' | sort | uniq -c | sort -rn | head -1 | awk '{print $2}')
-  v=detected; [ $code -eq 1 ] || { v="MISSED(exit=$code)"; bad=1; }
+  v=detected
+  if [ $code -ne 1 ]; then
+    if [ "$(jq -r '(.out_of_scope // .superseded // "") != ""' "$d/meta.json")" = true ]; then v="not-judged(exit=$code)"; else v="MISSED(exit=$code)"; bad=1; fi
+  fi
   printf "%-10s %-4s %-9s %-32s %5.1fs\n" "$name" "$id" "$v" "$inv" "$(echo "$t1 - $t0" | bc)"
 done
 exit $bad
